@@ -665,6 +665,66 @@ fn all_depth_sequences(cx: &Ctx, rng: &mut R, out: &mut Out, n: usize, emit_k: b
 
 // ------------------------------------------------------------------ Huffman
 
+fn caterpillar_scripts(n: usize) -> Vec<Vec<u8>> {
+    use elements::hashes::{sha256t, Hash, HashEngine};
+    use elements::taproot::{TapBranchTag, TapLeafHash};
+    let leaf = |s: &Vec<u8>| TapLeafHash::from_script(&Script::from(s.clone()), LeafVersion::default()).to_byte_array();
+    let branch = |a: &[u8; 32], b: &[u8; 32]| {
+        let mut eng = sha256t::Hash::<TapBranchTag>::engine();
+        if a < b { eng.input(a); eng.input(b); } else { eng.input(b); eng.input(a); }
+        sha256t::Hash::<TapBranchTag>::from_engine(eng).to_byte_array()
+    };
+    let pool: Vec<(Vec<u8>, [u8; 32])> = (0..2000u32).map(|i| { let mut v = vec![0x04]; v.extend_from_slice(&i.to_le_bytes()); let h = leaf(&v); (v, h) }).collect();
+    let highs: Vec<&(Vec<u8>, [u8; 32])> = pool.iter().filter(|x| x.1[0] >= 0x80).collect();
+    let mut lows: Vec<&(Vec<u8>, [u8; 32])> = pool.iter().filter(|x| x.1[0] < 0x80).collect();
+    lows.sort_by(|a, b| b.1.cmp(&a.1));
+    let mut seed = None;
+    'outer: for a in &highs {
+        for b in &highs {
+            if a.1 != b.1 && branch(&a.1, &b.1)[0] >= 0x80 { seed = Some((*a, *b)); break 'outer; }
+        }
+    }
+    let (a, b) = seed.expect("seed pair");
+    let mut outv = vec![a.0.clone(), b.0.clone()];
+    let mut cur = branch(&a.1, &b.1);
+    for l in lows {
+        if outv.len() >= n { break; }
+        let next = branch(&cur, &l.1);
+        if next[0] >= 0x80 { outv.push(l.0.clone()); cur = next; }
+    }
+    outv.truncate(n);
+    outv
+}
+
+fn huffman_caterpillar(cx: &Ctx, out: &mut Out, n: usize) {
+    let scripts = caterpillar_scripts(n);
+    if scripts.len() != n { out.count("huffman.caterpillar.pool_too_small"); return; }
+    let ws: Vec<(u32, Vec<u8>)> = scripts.iter().map(|s| (0u32, s.clone())).collect();
+    let arg = ws.iter().map(|(w, s)| format!("{}:{}", w, hex(s))).collect::<Vec<_>>().join(",");
+    let r = TaprootSpendInfo::with_huffman_tree(&cx.secp, cx.key, ws.iter().map(|(w, s)| (*w, Script::from(s.clone()))));
+    let res = match &r {
+        Ok(si) => format!("ok {}", show_spend(cx, si)),
+        Err(TaprootBuilderError::IncompleteTree) => "err IncompleteTree".into(),
+        Err(TaprootBuilderError::InvalidMerkleTreeDepth(_)) => "err InvalidMerkleTreeDepth".into(),
+        Err(_) => "err other".into(),
+    };
+    let orc = match &r { Ok(si) => oracle_args(cx, &cx.key, si.merkle_root()), Err(_) => "none 0".into() };
+    out.k(format!("tap.huffman {} {} {}", hex(&cx.key.serialize()), arg, orc), res);
+    out.count(&format!("huffman.caterpillar.n{}", n));
+    match r {
+        Ok(si) => {
+            let deepest = si.as_script_map().get(&(Script::from(scripts[0].clone()), LeafVersion::default())).map(|bs| bs.iter().map(|b| b.as_inner().len()).max().unwrap_or(0)).unwrap_or(0);
+            out.s("huffman_caterpillar_depth", deepest == n - 1, || format!("n={} deepest={}", n, deepest));
+            out.s("huffman_over_deep_refused", n - 1 <= 128, || format!("n={} accepted with depth {}", n, deepest));
+            if let Some(cb) = si.control_block(&(Script::from(scripts[0].clone()), LeafVersion::default())) {
+                let ser = cb.serialize();
+                out.s("huffman_deep_cb_roundtrip", ControlBlock::from_slice(&ser).map(|c| c == cb).unwrap_or(false), || format!("n={} cb_len={}", n, ser.len()));
+            }
+        }
+        Err(_) => out.s("huffman_depth_128_accepted", n - 1 > 128, || format!("n={} refused", n)),
+    }
+}
+
 fn huffman_case(cx: &Ctx, rng: &mut R, out: &mut Out, ws: &[(u32, Vec<u8>)], emit_k: bool, deep: bool) {
     let arg = if ws.is_empty() { "-".to_string() } else { ws.iter().map(|(w, s)| format!("{}:{}", w, hex(s))).collect::<Vec<_>>().join(",") };
     let r = TaprootSpendInfo::with_huffman_tree(&cx.secp, cx.key, ws.iter().map(|(w, s)| (*w, Script::from(s.clone()))));
@@ -985,6 +1045,13 @@ pub fn run(rng: &mut R, out: &mut Out) {
             j += 1;
         }
         huffman_case(&cx, rng, out, &ws, true, true);
+    }
+    // Weight ties are broken on the node hash, so with all-zero weights the shape is decided by the
+    // hashes alone: pick scripts so that every merge joins the running subtree with one new leaf
+    // (a caterpillar). With n leaves the two first leaves sit at depth n-1: depth 128 must be accepted,
+    // depth 129 refused (the Huffman path reaches the 128-node limit only through the merkle-branch push).
+    for n in [5usize, 128, 129, 130] {
+        huffman_caterpillar(&cx, out, n);
     }
     let dom = [0u32, 1, 2, 3, u32::MAX];
     for nn in 1..=(if th { 7 } else { 5 }) {
